@@ -84,6 +84,18 @@ Proof.
   rewrite F. cbn. auto.
 Qed.
 
+(* signal handles are raw pointers (qb_loop_signal_handle is a void pointer): the API can not validate them; their use after the
+   registration was freed is outside the contract and is what the model marks with EvUaf 1 / 2 / 4.  With a handle whose
+   registration exists neither call touches freed memory *)
+Lemma signal_ops_live_no_uaf : forall p g k h st s, sig_find h st = Some s ->
+  uaf (snd (signal_del h st)) = uaf st /\ uaf (snd (signal_mod p g k h st)) = uaf st.
+Proof.
+  intros p g k h st s F. unfold signal_del, signal_mod. destruct (h =? 0); [split; reflexivity|]. rewrite F. cbn [snd]. split; [|reflexivity].
+  destruct (fx_sigdel (fx st)); [reflexivity|]. destruct (find _ _) as [q|]; [|reflexivity].
+  cbn [uaf set_sigs emit set_out]. unfold item_del.
+  destruct (in_jobq q High st); [reflexivity|]. destruct (in_jobq q Med st); [reflexivity|]. destruct (in_jobq q Low st); reflexivity.
+Qed.
+
 (* ------------------------------------------------------------------ stale timer handles and stale epoll data *)
 (* the handle (c, i) of a timer that fired (the slot's check word is 0), was deleted (slot EMPTY) or whose slot
    was given to a new timer with another check word: rejected, nothing changes *)
